@@ -173,8 +173,8 @@ func c20StrictHelper(ctx *Ctx, r *Report) {
 			eof = true
 		}
 		if fn.Pkg() == hp.Types && fn != helper {
-			// the shape check: (node[, target type]) error
-			if sig, _ := fn.Type().(*types.Signature); sig != nil && sig.Params().Len() >= 1 && sig.Params().Len() <= 2 && sig.Results().Len() == 1 && strings.HasSuffix(sig.Params().At(0).Type().String(), "yaml.v3.Node") {
+			// the shape check: (node[, target type[, what was already checked]]) error
+			if sig, _ := fn.Type().(*types.Signature); sig != nil && sig.Params().Len() >= 1 && sig.Params().Len() <= 3 && sig.Results().Len() == 1 && strings.HasSuffix(sig.Params().At(0).Type().String(), "yaml.v3.Node") {
 				shape = fn
 			}
 		}
@@ -1218,7 +1218,7 @@ func c20ThirdHunt(ctx *Ctx, r *Report) {
 			ast.Inspect(cc, func(k ast.Node) bool {
 				switch x := k.(type) {
 				case *ast.CallExpr:
-					if strings.Contains(kinds, "AliasNode") && callee(info, x) == fn && len(x.Args) == 2 && strings.HasSuffix(exprString(x.Args[0]), ".Alias") {
+					if strings.Contains(kinds, "AliasNode") && callee(info, x) == fn && len(x.Args) >= 2 && strings.HasSuffix(exprString(x.Args[0]), ".Alias") {
 						alias = true
 					}
 				case *ast.IfStmt:
@@ -1226,7 +1226,7 @@ func c20ThirdHunt(ctx *Ctx, r *Report) {
 					if strings.Contains(kinds, "MappingNode") && strings.Contains(c, "!!merge") {
 						// the merged mappings are checked against the type of the mapping itself
 						ast.Inspect(x.Body, func(q ast.Node) bool {
-							if call, ok := q.(*ast.CallExpr); ok && len(call.Args) == 2 && exprString(call.Args[1]) == "target" {
+							if call, ok := q.(*ast.CallExpr); ok && len(call.Args) >= 2 && exprString(call.Args[1]) == "target" {
 								merge = true
 							}
 							return true
